@@ -12,6 +12,7 @@ theorem FP_MAX_eq : FP_MAX = 8 := rfl
 
 /-- register pieces of an aggregate of at most 16 bytes when `gp`, `fp` registers are taken -/
 def regsOf (ty : ATy) (gp fp : Nat) : List Reg :=
+  if ty.size = 0 then [] else          -- a GNU empty struct takes no register
   let r1 := if hasFlonum1 ty then Reg.sse fp else Reg.gp gp
   let gp1 := if hasFlonum1 ty then gp else gp + 1
   let fp1 := if hasFlonum1 ty then fp + 1 else fp
@@ -37,13 +38,13 @@ def refLoop : (Nat × Nat × Nat) → List ATy → (Nat × Nat × Nat) × List A
     let r' := refLoop r.1 ts
     (r'.1, r.2 :: r'.2)
 
-/-- sizes for which neither side reaches an abort site and both sides use the same number of stack slots: an aggregate
-    of at most 16 bytes is not empty, an eightbyte stored with `movss`/`movsd` has 4 or 8 bytes, an integer-class scalar
-    has 1..8 bytes, and the type is not an array (arrays are never passed by value) -/
+/-- sizes for which neither side reaches an abort site and both sides use the same number of stack slots: in an aggregate
+    of 1..16 bytes an eightbyte stored with `movss`/`movsd` has 4 or 8 bytes (an empty aggregate is fine: it takes nothing),
+    an integer-class scalar has 1..8 bytes, and the type is not an array (arrays are never passed by value) -/
 def aggSizeOk (ty : ATy) : Bool :=
   match ty with
   | .agg _ sz _ _ =>
-    !(decide (sz ≤ 16)) || (decide (0 < sz) && (!(hasFlonum1 ty) || decide (sz = 4) || decide (8 ≤ sz))
+    !(decide (sz ≤ 16)) || decide (sz = 0) || ((!(hasFlonum1 ty) || decide (sz = 4) || decide (8 ≤ sz))
       && (!(decide (sz > 8) && hasFlonum2 ty) || decide (sz = 12) || decide (sz = 16)))
   | .int sz _ _ => decide (1 ≤ sz) && decide (sz ≤ 8)    -- one 8-byte slot / one register
   | .arr .. => false                                     -- not an argument type
@@ -56,18 +57,23 @@ theorem structInRegs_min (ty : ATy) (gp fp : Nat) :
     (structInRegs ty (min gp GP_MAX) (min fp FP_MAX)).1 = (structInRegs ty gp fp).1 ∧
     (structInRegs ty (min gp GP_MAX) (min fp FP_MAX)).2 = (structInRegs ty gp fp).2 := by
   simp only [structInRegs, GP_MAX_eq, FP_MAX_eq, b2n]
-  constructor
-  · cases hasFlonum1 ty <;> cases hasFlonum2 ty <;> by_cases h : ty.size > 8 <;> simp [h]
-    all_goals (first | omega | (rw [Bool.eq_iff_iff]; simp only [Bool.and_eq_true, decide_eq_true_eq]; omega))
-  · trivial
+  by_cases hz : ty.size = 0
+  · simp [hz]
+  · simp only [hz, if_false]
+    constructor
+    · cases hasFlonum1 ty <;> cases hasFlonum2 ty <;> by_cases h : ty.size > 8 <;> simp [h]
+      all_goals (first | omega | (rw [Bool.eq_iff_iff]; simp only [Bool.and_eq_true, decide_eq_true_eq]; omega))
+    · trivial
 
-theorem aggSizeOk_agg {u : Bool} {sz al : Nat} {ms : Members} (h : aggSizeOk (.agg u sz al ms) = true) (h16 : sz ≤ 16) :
+theorem aggSizeOk_agg {u : Bool} {sz al : Nat} {ms : Members} (h : aggSizeOk (.agg u sz al ms) = true) (h16 : sz ≤ 16)
+    (hpos : 0 < sz) :
     0 < sz ∧ (hasFlonum1 (.agg u sz al ms) = true → sz = 4 ∨ 8 ≤ sz) ∧
     (sz > 8 → hasFlonum2 (.agg u sz al ms) = true → sz = 12 ∨ sz = 16) := by
   simp only [aggSizeOk] at h
+  have hz : ¬ sz = 0 := by omega
   generalize hasFlonum1 (.agg u sz al ms) = f1 at *
   generalize hasFlonum2 (.agg u sz al ms) = f2 at *
-  cases f1 <;> cases f2 <;> simp [h16] at h ⊢ <;> omega
+  cases f1 <;> cases f2 <;> simp [h16, hz] at h ⊢ <;> omega
 
 theorem alignTo8_div (s : Nat) : alignTo s 8 / 8 = (s + 7) / 8 := by
   unfold alignTo; omega
@@ -124,18 +130,21 @@ theorem caller_step (t : ATy) (cgp cfp stk off : Nat) (hok : aggSizeOk t = true)
       simp [h, this, h2]; omega
   | agg u sz al ms =>
     have hmin := structInRegs_min (.agg u sz al ms) cgp cfp
+    by_cases hz : sz = 0
+    · subst hz
+      simp [classifyStep, popStep, refStep, pushSlots, ATy.size, structInRegs, regsOf, alignTo]
+    have hpos : 0 < sz := by omega
     simp only [classifyStep, popStep, refStep, pushSlots, ATy.size, hmin.1]
     by_cases h16 : sz > 16
     · have : ¬ (sz ≤ 16) := by omega
       simp [h16, this]
     · have h16' : sz ≤ 16 := by omega
-      simp only [h16, h16', if_false, true_and]
+      simp only [h16, h16', hz, or_self, if_false, true_and]
       cases hok' : (structInRegs (.agg u sz al ms) cgp cfp).1
       · simp
-      · simp only [structInRegs, ATy.size, b2n, GP_MAX_eq, FP_MAX_eq] at hok' ⊢
-        have hpos := (aggSizeOk_agg hok h16').1
+      · simp only [structInRegs, ATy.size, b2n, GP_MAX_eq, FP_MAX_eq, hz, if_false] at hok' ⊢
         clear hok
-        simp only [regsOf, ATy.size, alignTo]
+        simp only [regsOf, ATy.size, alignTo, hz, if_false]
         generalize hasFlonum1 (.agg u sz al ms) = f1 at *
         generalize hasFlonum2 (.agg u sz al ms) = f2 at *
         cases f1 <;> cases f2 <;> by_cases h8 : sz > 8 <;> simp [h8, h16', Pop.reg] at hok' ⊢ <;> omega
@@ -248,15 +257,20 @@ theorem callee_step (t : ATy) (ogp ofp top off : Nat) (hok : aggSizeOk t = true)
   | arr e n => simp [aggSizeOk] at hok
   | agg u sz al ms =>
     have hmin := structInRegs_min (.agg u sz al ms) ogp ofp
+    by_cases hz : sz = 0
+    · subst hz
+      simp [offsetStep, storeStep, refStep, pushSlots, ATy.size, alignTo, structInRegs, regsOf, pure, Except.pure]
+      omega
+    have hpos0 : 0 < sz := by omega
     simp only [offsetStep, storeStep, refStep, pushSlots, ATy.size, alignTo]
     by_cases h16 : sz ≤ 16
     · simp only [h16, if_true, true_and]
       cases hok' : (structInRegs (.agg u sz al ms) ogp ofp).1
       · simp; omega
-      · obtain ⟨hpos, hf1, hf2⟩ := aggSizeOk_agg hok h16
+      · obtain ⟨hpos, hf1, hf2⟩ := aggSizeOk_agg hok h16 hpos0
         simp only [↓reduceIte]
-        simp only [structInRegs, ATy.size, b2n, GP_MAX_eq, FP_MAX_eq] at hok' ⊢
-        simp only [regsOf, ATy.size, storeFp, storeGp, hasFlonum1, hasFlonum2] at hf1 hf2 ⊢
+        simp only [structInRegs, ATy.size, b2n, GP_MAX_eq, FP_MAX_eq, hz, if_false] at hok' ⊢
+        simp only [regsOf, ATy.size, storeFp, storeGp, hasFlonum1, hasFlonum2, hz, if_false] at hf1 hf2 ⊢
         simp only [hasFlonum1, hasFlonum2] at hok'
         by_cases e1 : hasFlonum (.agg u sz al ms) 0 8 0 = true <;>
           by_cases e2 : hasFlonum (.agg u sz al ms) 8 16 0 = true <;>
